@@ -47,6 +47,10 @@ Inductive tail_step (n d : nat) : val -> positive -> state -> nat -> val -> posi
     macro_of st (VList [sy "if"; c; a; b] cur) env = None ->
     eval n (S d) c env st = (Ok cv, st1) -> truthy cv = false ->
     tail_step n d (VList [sy "if"; c; a; b] cur) env st n b env st1
+| ts_if_one_armed c a cur env st cv st1 :
+    macro_of st (VList [sy "if"; c; a] cur) env = None ->
+    eval n (S d) c env st = (Ok cv, st1) -> truthy cv = true ->
+    tail_step n d (VList [sy "if"; c; a] cur) env st n a env st1
 | ts_do forms cur env st last st1 :
     macro_of st (VList (sy "do" :: forms) cur) env = None ->
     do_forms (eval n) d (sy "do" :: forms) 1 true env st = (Ok last, st1) ->
@@ -75,12 +79,13 @@ Proof. reflexivity. Qed.
 Theorem tail_step_same_depth n d x env st n' y env' st' :
   tail_step n d x env st n' y env' st' -> eval (S n) d x env st = eval n' d y env' st'.
 Proof.
-  destruct 1 as [c a b cur env st cv st1 H He Ht | c a b cur env st cv st1 H He Ht | forms cur env st last st1 H Hd
+  destruct 1 as [c a b cur env st cv st1 H He Ht | c a b cur env st cv st1 H He Ht | c a cur env st cv st1 H He Ht | forms cur env st last st1 H Hd
                 | a1 body cur env st le st1 arr st2 u st3 last st4 H H1 H2 H3 H4 H5
                 | s p args cur env st params body fenv vs st1 env' st2 H Hs He Hb
                 | head p rest cur env st mac ast' st1 H He].
   - rewrite (eval_if _ _ _ _ _ _ _ _ H), He. cbn [prop]. rewrite Ht. reflexivity.
   - rewrite (eval_if _ _ _ _ _ _ _ _ H), He. cbn [prop]. rewrite Ht. reflexivity.
+  - rewrite (eval_if_no_else _ _ _ _ _ _ _ H), He. cbn [prop]. rewrite Ht. reflexivity.
   - rewrite (eval_do _ _ _ _ _ _ H), Hd. reflexivity.
   - rewrite (eval_let _ _ _ _ _ _ _ H), H1. cbn [prop]. rewrite H2. cbn [prop]. rewrite H3, H4. cbn [prop]. rewrite H5. reflexivity.
   - rewrite (eval_call_closure _ _ _ _ _ _ _ _ _ _ _ _ _ H Hs He), Hb. reflexivity.
